@@ -32,7 +32,7 @@ def main():
     lines = open(p, encoding="utf-8").read().split("\n")
     hdr = lines.index("| change | what it does | what differs observably | checks run (quick tier) | outcome |")
     end = hdr + 2
-    while end < len(lines) and lines[end].startswith("| B-"):
+    while end < len(lines) and lines[end].startswith("| B"):
         end += 1
     lines[hdr + 2:end] = rows
     open(p, "w", encoding="utf-8").write("\n".join(lines))
